@@ -170,7 +170,9 @@ structure StmtSpec (fc : FCtx) (prev : Option Nat) (s : Stmt) (st : St) : Prop w
   subsAll : ∀ (ext : List Row) (i b' : Nat) (p : Option Nat),
     ((buildStmt fc prev s st).2.pop ++ ext)[i]? = some (.smt b' p) → st.pop.length ≤ i →
     i < (buildStmt fc prev s st).2.pop.length →
-    ∃ row, smtSub ((buildStmt fc prev s st).2.pop ++ ext) i = some row ∧ row.smtOf = some i
+    ∃ row, smtSub ((buildStmt fc prev s st).2.pop ++ ext) i = some row ∧ row.smtOf = some i ∧
+      ((∀ x ∈ ext, ∀ k, x.smtOf = some k → k < st.pop.length ∨ (buildStmt fc prev s st).2.pop.length ≤ k) →
+        subCount ((buildStmt fc prev s st).2.pop ++ ext) i = 1)
   uniq : ∀ ext : List Row, (∀ x ∈ ext, x.smtOf ≠ some st.pop.length) →
     subCount ((buildStmt fc prev s st).2.pop ++ ext) st.pop.length = 1
 
@@ -230,7 +232,24 @@ theorem simple_spec {fc : FCtx} {prev : Option Nat} {s : Stmt} {st : St} (mid : 
     rw [hb] at hi hlt ⊢
     simp only [new_pop] at hi hlt ⊢
     by_cases hin : i = st.pop.length
-    · subst hin; exact ⟨sub, hfind ext, hsub⟩
+    · subst hin
+      refine ⟨sub, hfind ext, hsub, fun hc => ?_⟩
+      apply subCount_parts _ (fun x hx hxe => by have := hc x hx _ hxe; simp at this; omega) hsub
+      intro x hx
+      rw [hdm] at hx
+      rcases List.mem_append.1 hx with h | h
+      · obtain ⟨j, hj⟩ := List.getElem?_of_mem h
+        intro hx'
+        have h1 := (hinv.ts j x hj).2.1 _ hx'
+        have h2 : j < st.pop.length := by
+          rcases Nat.lt_or_ge j st.pop.length with h' | h'
+          · exact h'
+          · simp [List.getElem?_eq_none h'] at hj
+        omega
+      · simp at h
+        rcases h with rfl | h
+        · simp [Row.smtOf]
+        · rw [(hrows x h).1]; simp
     · exfalso
       rw [List.getElem?_append_left hlt, hdm] at hi
       have h1 : (st.pop ++ Row.smt (curBlkD st.scopes) prev :: dm ++ [sub])[i]? =
@@ -1222,7 +1241,9 @@ structure ChainSpec (fc : FCtx) (prev : Option Nat) (ss : Block) (st : St) : Pro
   subsAll : ∀ (ext : List Row) (i b' : Nat) (p : Option Nat),
     ((buildStmts fc prev ss st).pop ++ ext)[i]? = some (.smt b' p) → st.pop.length ≤ i →
     i < (buildStmts fc prev ss st).pop.length →
-    ∃ row, smtSub ((buildStmts fc prev ss st).pop ++ ext) i = some row ∧ row.smtOf = some i
+    ∃ row, smtSub ((buildStmts fc prev ss st).pop ++ ext) i = some row ∧ row.smtOf = some i ∧
+      ((∀ x ∈ ext, ∀ k, x.smtOf = some k → k < st.pop.length ∨ (buildStmts fc prev ss st).pop.length ≤ k) →
+        subCount ((buildStmts fc prev ss st).pop ++ ext) i = 1)
   chain : ∀ (ext : List Row) (fuel : Nat), FreshC st.pop.length (buildStmts fc prev ss st).pop.length ext →
     lenB ss ≤ fuel → chainFrom ((buildStmts fc prev ss st).pop ++ ext) fuel (headOf st.pop.length ss) = stmtIds fc prev ss st
   linked : ∀ ext : List Row, linked ((buildStmts fc prev ss st).pop ++ ext) (curBlkD st.scopes) prev (stmtIds fc prev ss st)
@@ -1519,7 +1540,10 @@ theorem blockStmt_spec {fc : FCtx} {prev : Option Nat} {s : Stmt} {b : Block} {s
   · intro ext i b' p hi hge hlt
     rw [hb] at hi hlt ⊢
     by_cases hin : i = st.pop.length
-    · subst hin; exact ⟨_, hfind ext, hmk.1⟩
+    · subst hin
+      refine ⟨_, hfind ext, hmk.1, fun hc => ?_⟩
+      simp only [new_pop, popScope_pop] at hc ⊢
+      exact subCount_parts hnone (fun x hx hxe => by have := hc x hx _ hxe; simp at this; omega) hmk.1
     · simp only [new_pop, popScope_pop] at hi hlt ⊢
       by_cases h1 : i < K.pop.length
       · exfalso
@@ -1535,7 +1559,13 @@ theorem blockStmt_spec {fc : FCtx} {prev : Option Nat} {s : Stmt} {b : Block} {s
         · simp at h
       · by_cases h2 : i < (buildStmts fc none b K).pop.length
         · rw [List.append_assoc] at hi ⊢
-          exact C.subsAll ([mk V.pop.length] ++ ext) i b' p hi (by omega) h2
+          obtain ⟨row, hr1, hr2, hr3⟩ := C.subsAll ([mk V.pop.length] ++ ext) i b' p hi (by omega) h2
+          refine ⟨row, hr1, hr2, fun hc => hr3 ?_⟩
+          intro x hx k hk
+          rcases List.mem_append.1 hx with h | h
+          · simp at h; subst h; rw [hmk.1] at hk; cases hk; left; omega
+          · have := hc x h k hk
+            simp at this; omega
         · exfalso
           have : i = (buildStmts fc none b K).pop.length := by simp at hlt; omega
           subst this
@@ -2024,8 +2054,18 @@ theorem buildStmts_spec (fc : FCtx) : ∀ (ss : Block) (prev : Option Nat) (st :
       rw [hbs] at hi hlt ⊢
       by_cases h1 : i < (buildStmt fc prev s st).2.pop.length
       · rw [hd2, List.append_assoc] at hi ⊢
-        exact S.subsAll (d2 ++ ext) i b' p hi hge h1
-      · exact C.subsAll ext i b' p hi (by omega) hlt
+        obtain ⟨row, hr1, hr2, hr3⟩ := S.subsAll (d2 ++ ext) i b' p hi hge h1
+        refine ⟨row, hr1, hr2, fun hc => hr3 ?_⟩
+        intro x hx k hk
+        rcases List.mem_append.1 hx with h | h
+        · right; exact C.keysGe d2 hd2 x h k hk
+        · have := hc x h k hk
+          simp at this; omega
+      · obtain ⟨row, hr1, hr2, hr3⟩ := C.subsAll ext i b' p hi (by omega) hlt
+        refine ⟨row, hr1, hr2, fun hc => hr3 ?_⟩
+        intro x hx k hk
+        have := hc x hx k hk
+        omega
     · intro ext fuel hfresh hf
       simp only [lenB] at hf
       obtain ⟨f, rfl⟩ := fuel_succ (by omega : 1 ≤ fuel)
@@ -2227,7 +2267,26 @@ theorem prebuildFlat_subtypes (fc : FCtx) (a : Block) (hc : coreB a = true) (hok
       have : i = 0 := by simp [bodySt, pushScope] at h'; omega
       subst this; simp [bodySt, pushScope] at hi
     · exact h'
-  have := C.subsAll [] i b' p (by simpa [← hp] using hi) hge (by rw [← hp]; exact hlt)
+  obtain ⟨row, h1, h2, _⟩ := C.subsAll [] i b' p (by simpa [← hp] using hi) hge (by rw [← hp]; exact hlt)
+  exact ⟨row, by simpa [← hp] using h1, h2⟩
+
+/-- EVERY statement of the population — of the outer block and of every nested block — has exactly one R603 subtype row -/
+theorem prebuildFlat_subCount_all (fc : FCtx) (a : Block) (hc : coreB a = true) (hok : okAll fc none a bodySt = true)
+    (i b' : Nat) (p : Option Nat) (hi : (prebuildFlat fc a)[i]? = some (.smt b' p)) :
+    subCount (prebuildFlat fc a) i = 1 := by
+  have C := buildStmts_spec fc a none bodySt hc bodySt_inv (by intro k h; cases h) hok
+  have hp : prebuildFlat fc a = (buildStmts fc none a bodySt).pop := by
+    simp [prebuildFlat, prebuildSt, popScope, bodySt]
+  obtain ⟨d, hd, _⟩ := C.grows
+  have hlt : i < (prebuildFlat fc a).length := getElem?_lt_of_some hi
+  have hge : bodySt.pop.length ≤ i := by
+    rcases Nat.lt_or_ge i bodySt.pop.length with h' | h'
+    · rw [hp, hd, List.getElem?_append_left h'] at hi
+      have : i = 0 := by simp [bodySt, pushScope] at h'; omega
+      subst this; simp [bodySt, pushScope] at hi
+    · exact h'
+  obtain ⟨row, _, _, h3⟩ := C.subsAll [] i b' p (by simpa [← hp] using hi) hge (by rw [← hp]; exact hlt)
+  have := h3 (by intro x hx; cases hx)
   simpa [← hp] using this
 
 /-- every statement of the body has EXACTLY ONE R603 subtype row (as a count) -/
